@@ -42,16 +42,21 @@ fn one<T: El>(tr: &mut Trace, rng: &mut Rng, nx: usize, ny: usize, cx: &str, cy:
     } else {
         gen::data::<T>(rng, &shape, gen::DATA_CLASSES[0])
     };
-    let dr = real(&data, Lay::C);
-    let xr = real1(&x, Lay::C);
-    let yr = real1(&y, Lay::C);
+    let (store, dlay, xlay, ylay) = match rng.below(6) {
+        0 => (Store::View, *rng.pick(&[Lay::Rev, Lay::Perm, Lay::Strided, Lay::F]), Lay::Strided, Lay::Rev),
+        1 => (Store::Owned, *rng.pick(&[Lay::F, Lay::Perm]), Lay::C, Lay::C),
+        _ => (Store::Owned, Lay::C, Lay::C, Lay::C),
+    };
+    let dr = real(&data, dlay);
+    let xr = real1(&x, xlay);
+    let yr = real1(&y, ylay);
     let dynamic = rng.below(6) == 0;
     let cfg = Cfg2 {
         x: if xdef { None } else { Some(&xr) },
         y: if ydef { None } else { Some(&yr) },
         data: &dr,
         dtag: dtag_for(shape.len(), dynamic),
-        store: Store::Owned,
+        store,
     };
     let cxs = coords(rng, &x, 3);
     let cys = coords(rng, &y, 3);
